@@ -57,6 +57,20 @@ class Ctx:
 
 # ---------------------------------------------------------------- Go
 
+def _atomic_write(path, text):
+    """write a file that concurrent checks read: same content every time, replaced atomically"""
+    try:
+        with open(path) as f:
+            if f.read() == text:
+                return
+    except OSError:
+        pass
+    tmp = "%s.%d" % (path, os.getpid())
+    with open(tmp, "w") as f:
+        f.write(text)
+    os.replace(tmp, path)
+
+
 def go_build(driver, tags="verif", race=False, moddir=None, pkg=None):
     """Build ./drivers/<driver> of the harness against the repository working tree ($VERIF_REPO, default /repo).
     A scratch go.mod (-modfile) carries the replace directive so a scratch worktree can be checked without
@@ -70,16 +84,15 @@ def go_build(driver, tags="verif", race=False, moddir=None, pkg=None):
     with open(os.path.join(moddir, "go.mod")) as f:
         gm = f.read()
     gm = gm.replace("=> /repo", "=> " + REPO)
-    with open(modfile, "w") as f:
-        f.write(gm)
+    _atomic_write(modfile, gm)
     sums = ""
     for p in (os.path.join(REPO, "go.sum"), os.path.join(REPO, "cmd/hz/go.sum"), os.path.join(moddir, "go.sum")):
         if os.path.exists(p):
             sums += open(p).read()
-    with open(os.path.join(bdir, modname + ".go.sum"), "w") as f:
-        f.write("".join(sorted(set(sums.splitlines(True)))))
+    _atomic_write(os.path.join(bdir, modname + ".go.sum"), "".join(sorted(set(sums.splitlines(True)))))
     out = os.path.join(bdir, driver + ("_race" if race else ""))
-    cmd = ["go", "build", "-modfile", modfile, "-tags", tags, "-o", out]
+    tmp_out = "%s.%d" % (out, os.getpid())      # checks may run concurrently: never write the shared binary in place
+    cmd = ["go", "build", "-modfile", modfile, "-tags", tags, "-o", tmp_out]
     if race:
         cmd.append("-race")
     cmd.append(pkg or "./drivers/" + driver)
@@ -87,6 +100,7 @@ def go_build(driver, tags="verif", race=False, moddir=None, pkg=None):
     p = subprocess.run(cmd, cwd=moddir, env=GOENV, capture_output=True, text=True)
     if p.returncode != 0:
         raise Infra("go build %s failed:\n%s%s" % (driver, p.stdout, p.stderr))
+    os.replace(tmp_out, out)
     log("built %s against %s in %.1fs" % (driver, REPO, time.time() - t))
     return out
 
